@@ -65,12 +65,26 @@ class VDeco2(VDeco):
     pass
 
 
+class VDecoFalsy(VDeco):
+    """A decorator whose truth value is False (e.g. a switch that is turned off)."""
+
+    def __bool__(self):
+        return False
+
+
 class VPool(Pool):
     supply = demand = 0
     utilisation = allocation = 1.0
 
     def __init__(self, *args, **kwargs):
         _construct(self, args, kwargs)
+
+
+class VPoolEmpty(VPool):
+    """A pool that is also an (empty) container: its truth value is False."""
+
+    def __len__(self):
+        return 0
 
 
 @yaml_tag(eager=True)
